@@ -3,10 +3,10 @@ D = "internal/dnssvc/internal/devicefinder"
 CHECK = dict(
     level="exploration",
     level_text="Generated-input search over the product transport x server settings (linked IP, bind data, device domains) x model profile database (auth off / on / DoH-only, deleted and missing profiles, detached devices, linked and dedicated addresses, human ids, automatic devices) x request channels (URL path variants, userinfo absent / user only / empty / wrong / right password, TLS server name with case variants, nested labels and suffix tricks, EDNS CPE-ID valid / invalid / duplicated / near-miss codes, local and remote addresses). The real devicefinder.Default.Find is compared in both directions with an independent decision table and, separately, with six one-directional security invariants; the same cases are sent through the real ratelimitmw.Middleware.Wrap and the agd.RequestInfo shown to the next handler is checked (profile visible only for DeviceResultOK; authentication failures served once, as anonymous, with the global message constructor). Held on N cases is evidence, not proof.",
-    level_note="The profile database is a model behind agdtest.ProfileDB that honours the documented contract of profiledb.Default (returns only devices listed in the returned profile, returns deleted profiles with Deleted set, wraps not-found errors one to three levels); the real profiledb is C14's subject. Passwords are compared by a byte-compare authenticator (bcrypt and the allow-all authenticator of password-less devices are not exercised). agd.HumanIDParser normalisation and path.Clean are trusted. Where the statement leaves a corner open (letter case of the basic-auth user and of the CPE-ID, which of several different CPE-ID options counts, first path segment that is only a suffix of a DNS path) every reading is accepted.",
+    level_note="The profile database is a model behind agdtest.ProfileDB that honours the documented contract of profiledb.Default (returns only devices listed in the returned profile, returns deleted profiles with Deleted set, wraps not-found errors one to three levels); the real profiledb is C14's subject. Passwords are checked by the real agdpasswd authenticators: real bcrypt hashes at minimal cost (random salt; no outcome depends on it), the allow-all authenticator for devices with authentication enabled but no configured password (every supplied password is accepted, an absent one is not: pinned from the unchanged code), and stored hashes that nothing can match (empty, truncated, truncated by one byte, foreign first byte, another scheme, newer version, cost 3, cost 32) for which no password is right and the result is an authentication failure served as anonymous. agd.HumanIDParser normalisation and path.Clean are trusted. Where the statement leaves a corner open (letter case of the basic-auth user and of the CPE-ID, which of several different CPE-ID options counts, first path segment that is only a suffix of a DNS path) every reading is accepted.",
     technique="property-based testing (rapid): generated worlds and requests vs an independent decision table (both directions) plus one-directional security invariants, directly and through the access/rate-limit middleware",
     assumptions=[
-        "model profile database honouring the contract of profiledb.Default; passwords checked by byte comparison",
+        "model profile database honouring the contract of profiledb.Default; passwords checked by the real agdpasswd authenticators (bcrypt at minimal cost, allow-all, unusable hashes)",
         "requests are built as the dnsserver package builds them: URL only on DoH, userinfo only on DoH, TLS server name only on DoH/DoT/DoQ, EDNS options on every transport",
         "device domains are lower-case, as produced from device_id_wildcards",
         "cmd unit: rate-limit and dns sections are filled in by hand next to the parsed server_groups section; the handlers are made with dnssvc.NewHandlers as builder.initDNS makes them, over a recording profile database; interface listeners use the loopback interface lo (127.0.0.0/8), a case is discarded if it is not usable",
